@@ -183,6 +183,13 @@ class PosePath3D(object):
                 self._poses_se3.append(self._poses_se3[j].dot(rel_poses[i]))
         else:
             self._poses_se3 = [np.dot(t, p) for p in self.poses_se3]
+        if not lie.is_se3(t):
+            # A Sim(3) transformation also scales the rotation blocks:
+            # remove that scale so that the poses remain valid SE(3) matrices.
+            self._poses_se3 = [
+                lie.se3(p[:3, :3] / lie.sim3_scale(p), p[:3, 3])
+                for p in self._poses_se3
+            ]
         self._positions_xyz, self._orientations_quat_wxyz \
             = se3_poses_to_xyz_quat_wxyz(self.poses_se3)
 
